@@ -43,3 +43,12 @@ claim("C20",
       "emitted packages together and argument-order independence are not decided.",
       "json tag $id identifies the id field",
       "DESIGN.md §2 C20")
+
+claim("C15",
+      "role-flow analysis from json struct tags through call sites, struct fields and results (B-ROLE), store/flag pairing (B-PAIR), write-through-input alias rule (B-ALIAS)",
+      "Decides which schema keyword every argument, removal flag and cleared pointer of the sized-int machinery refers to, for all call sites at once: NormalizeBounds/getMinIntType "
+      "receive (minimum, maximum, exclusiveMinimum, exclusiveMaximum) in contract order everywhere, the type tables receive (lower, upper), each removal flag depends only on its own "
+      "bound and clears only its own side's keywords, and the type chooser does not mutate the schema through aliased pointers. These are necessary conditions of flag-on/flag-off "
+      "equivalence that no golden exercises (two fixed defects were found by them); the arithmetic of the width tables is not decided by this check.",
+      "json struct tags of schemas.Type name the keywords; the positional contract of NormalizeBounds",
+      "DESIGN.md §2 C15")
